@@ -105,6 +105,7 @@ structure SStats where
   mateInTwo : Nat := 0
   avoidable : Nat := 0
   longerMateKept : Nat := 0
+  chainPairs : Nat := 0
 
 structure SSt where
   lineNo : Nat := 0
@@ -425,6 +426,14 @@ def sstep (s : SSt) (line : String) : SSt :=
   else if line.startsWith "V " then { s with vlines := s.vlines.push line }
   else if line.startsWith "X " then { s with xlines := s.xlines.push line }
   else if line.startsWith "R " then finishCase s (line.drop 2).toString
+  else if line.startsWith "D! " then
+    -- the harness searched a position right after an unrelated search (cache cleared in between) and got another result
+    s.report "spec" "C16" "fresh-search-depends-on-earlier-search" (line.drop 3).toString
+  else if line.startsWith "D " then
+    let n := match ((line.splitOn " ").find? (fun x => x.startsWith "pairs=")) with
+      | some x => (x.drop 6).toString.toNat?.getD 0
+      | none => 0
+    { s with stats := { s.stats with chainPairs := s.stats.chainPairs + n } }
   else s
 
 partial def sloop (h : IO.FS.Stream) (s : SSt) : IO SSt := do
@@ -437,7 +446,7 @@ def runSearch (specBudget : Nat) : IO UInt32 := do
   for r in s.reports do IO.println r
   let st := s.stats
   let samples := ",".intercalate (s.samples.toList.map fun x => "\"" ++ (x.replace "\"" "'") ++ "\"")
-  IO.println ("SUMMARY {" ++ s!"\"lines\":{s.lineNo},\"cases\":{st.cases},\"distinct_cases\":{s.distinct.size},\"info_lines\":{st.infoLines},\"cache_writes\":{st.writes},\"nodes_total\":{st.nodesTotal},\"interrupted\":{st.aborted},\"clock_interrupted\":{st.clockCases},\"completed\":{st.completed},\"cache_off\":{st.cacheOff},\"cache_kept\":{st.kept},\"with_history\":{st.withHistory},\"negamax_checks\":{st.negamaxChecks},\"spec_negamax_checks\":{st.specNegamaxChecks},\"repeated_runs\":{st.repeats},\"fallback_bestmove\":{st.fallbackBest},\"mate_scores\":{st.mateScores},\"mate_in_one_cases\":{st.mateInOne},\"mate_in_two_cases\":{st.mateInTwo},\"avoidable_threat_cases\":{st.avoidable},\"longer_mate_kept\":{st.longerMateKept},\"model_mismatches\":{s.nModel},\"spec_mismatches\":{s.nSpec},\"samples\":[{samples}]" ++ "}")
+  IO.println ("SUMMARY {" ++ s!"\"lines\":{s.lineNo},\"cases\":{st.cases},\"distinct_cases\":{s.distinct.size},\"info_lines\":{st.infoLines},\"cache_writes\":{st.writes},\"nodes_total\":{st.nodesTotal},\"interrupted\":{st.aborted},\"clock_interrupted\":{st.clockCases},\"completed\":{st.completed},\"cache_off\":{st.cacheOff},\"cache_kept\":{st.kept},\"with_history\":{st.withHistory},\"negamax_checks\":{st.negamaxChecks},\"spec_negamax_checks\":{st.specNegamaxChecks},\"repeated_runs\":{st.repeats},\"fallback_bestmove\":{st.fallbackBest},\"mate_scores\":{st.mateScores},\"mate_in_one_cases\":{st.mateInOne},\"mate_in_two_cases\":{st.mateInTwo},\"avoidable_threat_cases\":{st.avoidable},\"longer_mate_kept\":{st.longerMateKept},\"chain_pairs\":{st.chainPairs},\"model_mismatches\":{s.nModel},\"spec_mismatches\":{s.nSpec},\"samples\":[{samples}]" ++ "}")
   return (if s.nModel + s.nSpec == 0 then 0 else 1)
 
 end RCE.Driver
